@@ -2,7 +2,7 @@
    dispatch takes one command line (bytes) and returns one result line (bytes); the
    OCaml driver only converts between OCaml strings and byte lists. *)
 From Coq Require Import String.
-From MdIt Require Import Prims Mdurl.
+From MdIt Require Import Prims Mdurl SourceMap.
 Local Open Scope string_scope.
 Local Open Scope list_scope.
 Local Open Scope N_scope.
@@ -25,6 +25,11 @@ Definition dispatch (line : str) : str :=
     if list_eqb cmd (bs "enc") then cmd_enc a
     else if list_eqb cmd (bs "norm") then
       match a with [s] => bs "ok " ++ hexs (normalize_link (arg_hex s)) | _ => bs "error args" end
+    else if list_eqb cmd (bs "pos") then
+      match a with
+      | [s; st; en] => bs "ok " ++ fmt_sourcepos (get_positions (arg_hex s) (parse_dec st 0) (parse_dec en 0))
+      | _ => bs "error args"
+      end
     else if list_eqb cmd (bs "ping") then bs "ok pong"
     else bs "error unknown-command"
   | [] => bs "error empty"
